@@ -17,14 +17,23 @@ func buildPam(verifDir, repo string) (string, error) {
 	bin := filepath.Join(dir, fmt.Sprintf("pamsim-%d", os.Getpid()))
 	final := filepath.Join(dir, "pamsim")
 	ps := filepath.Join(verifDir, "pamsim")
-	args := []string{"-g", "-O1", "-fsanitize=address,undefined", "-fno-sanitize-recover=undefined", "-fno-omit-frame-pointer",
-		"-I", filepath.Join(ps, "include"), "-include", filepath.Join(ps, "shim.h"),
-		"-Wno-pointer-arith", "-Wno-unused-parameter",
-		"-o", bin, filepath.Join(ps, "driver.c"), filepath.Join(repo, "pam", "pam_whawty.c")}
-	cmd := exec.Command("clang", args...)
-	out, err := cmd.CombinedOutput()
-	if err != nil {
-		return "", fmt.Errorf("%v\n%s", err, out)
+	common := []string{"-g", "-O1", "-fsanitize=address,undefined", "-fno-sanitize-recover=undefined", "-fno-omit-frame-pointer",
+		"-I", filepath.Join(ps, "include"), "-include", filepath.Join(ps, "shim.h"), "-Wno-pointer-arith", "-Wno-unused-parameter"}
+	objD := filepath.Join(dir, fmt.Sprintf("driver-%d.o", os.Getpid()))
+	objM := filepath.Join(dir, fmt.Sprintf("module-%d.o", os.Getpid()))
+	defer os.Remove(objD)
+	defer os.Remove(objM)
+	steps := [][]string{
+		append(append([]string{}, common...), "-DSIM_DRIVER", "-c", "-o", objD, filepath.Join(ps, "driver.c")),
+		append(append([]string{}, common...), "-c", "-o", objM, filepath.Join(repo, "pam", "pam_whawty.c")), // the module, unmodified
+		{"-fsanitize=address,undefined", "-o", bin, objD, objM},
+	}
+	for _, a := range steps {
+		cmd := exec.Command("clang", a...)
+		out, err := cmd.CombinedOutput()
+		if err != nil {
+			return "", fmt.Errorf("clang %v: %v\n%s", a, err, out)
+		}
 	}
 	if err := os.Rename(bin, final); err != nil {
 		return "", err
